@@ -70,6 +70,12 @@ def crafted_asset(rng, kind, ne, nh):
     if kind == "fully_sold":
         ins = [_in(T(0), e0, h0, amt, price, 3), _in(T(1), e0, h0, amt // 3, price * 2, 4)]
         outs = [_out(T(2), e0, h0, amt // 7, 0, price, 8), _out(T(3), e0, h0, amt + amt // 3 - amt // 7 - 1000, 1000, price, 9)]
+    elif kind == "fully_sold_thirds":
+        # one lot sold completely by three equal disposals: the three sold percentages (1/3 rounded to 31 digits each) add up
+        # to 0.999..9, so the lot's unsold cost is positive in exact arithmetic (about cost x 1e-31) but zero at 13 decimals
+        a3 = 3 * rng.choice([U, 5 * 10 ** 10, 41152263004, 7])
+        ins = [_in(T(0), e0, h0, a3, price, 3)]
+        outs = [_out(T(2 + k), e0, h0, a3 // 3, 0, price * (k + 1), 8 + k) for k in range(3)]
     elif kind == "income_only":
         ins = [_in(T(k), rng.below(ne), rng.below(nh), rng.choice([U, 1000, 25 * 10 ** 9]), rng.choice(hist.PRICES[2:9]), 3 + k,
                    ty=rng.choice(hist.EARN)) for k in range(rng.range(1, 4))]
@@ -104,7 +110,7 @@ def crafted_asset(rng, kind, ne, nh):
             "from": None, "to": None, "allow_neg": False, "ins": ins, "outs": outs, "intras": intras}
 
 
-CRAFT_KINDS = ["fully_sold", "income_only", "holder_at_zero", "dust", "moved", "dust_fee_zero_balance", "tiny_cost"]
+CRAFT_KINDS = ["fully_sold", "income_only", "holder_at_zero", "dust", "moved", "fully_sold_thirds", "dust_fee_zero_balance", "tiny_cost"]
 
 
 def gen_case(rng, k):
@@ -119,7 +125,7 @@ def gen_case(rng, k):
         free = [n for n in l5.ASSET_NAMES + ["Q7", "M0"] if n not in used]
         for _ in range(rng.range(1, 2)):
             # dust-fee / below-resolution shapes: rarer than the others so that the other judgements dominate
-            kind = rng.choice(CRAFT_KINDS[:5] * 4 + CRAFT_KINDS[5:])
+            kind = rng.choice(CRAFT_KINDS[:6] * 4 + CRAFT_KINDS[6:])
             c = crafted_asset(rng, kind, ne, nh)
             c["asset"] = free.pop(0)
             m["assets"].append(c)
